@@ -21,7 +21,8 @@ LEVEL_TEXT = ("For every n in 0..40 (plus 99, 101, 1000), ratio vectors built as
               "vectors off by more than 1e-6 must raise ValueError.")
 LEVEL_NOTE = "Exhaustive over the stated grid; larger n sampled."
 RULE = ("cases: (environment sizes, ratio composition, seed, container form).  distinct = distinct tuple; non-trivial = at least two "
-        "folds and some environment with n >= 2")
+        "folds and some environment with n >= 2"
+        ' Also: explicit seeds 0 and 42 with pairwise distinct assignments, folds of earlier calls re-checked after later calls, the call repeated after the caller overwrote earlier folds.')
 ASSUMPTIONS = ["ratio vectors are exact-sum-1 by construction (k_i/m); the float sum may differ from 1 by rounding"]
 EXHAUSTIVE = {"quick": True, "thorough": True}
 SOFT_LIMIT = {"quick": 240, "thorough": 1500}
